@@ -21,7 +21,7 @@ Proof.
   intros Hs Hr. eapply ev_ref; [reflexivity|].
   assert (H36 : forall c r0, rec_body s ++ rest = c :: r0 -> c <> 36 -> evG (PRef 11) (rec_body s ++ rest) 0 PFail).
   { intros c r0 E Hc. rewrite E. eapply ev_ref; [reflexivity|]. apply ev_seq_fail. apply (ev_lit_fail G [36]). apply strip1_no. exact Hc. }
-  destruct s as [q k|k|ds|[|]|a b c0].
+  destruct s as [q k|k|ds|[|]|a b c0|u us].
   - apply ev_alt_r; [eapply (H36 91); [reflexivity|discriminate]|]. apply ev_alt_l.
     cbn [rec_body first_tokens]. exact (ev_rule10_step (SBr q k) rest 0 Hs I).
   - destruct k as [|c k]; [discriminate Hs|]. cbn [step_ok] in Hs. cbn [rec_body first_tokens].
@@ -42,11 +42,13 @@ Proof.
     cbn [rec_body first_tokens]. exact (ev_rule10_step (SWild false) rest 0 Hs I).
   - apply ev_alt_r; [eapply (H36 91); [reflexivity|discriminate]|]. apply ev_alt_l.
     cbn [rec_body first_tokens]. exact (ev_rule10_step (SSlice a b c0) rest 0 Hs I).
+  - apply ev_alt_r; [eapply (H36 91); [reflexivity|discriminate]|]. apply ev_alt_l.
+    cbn [rec_body first_tokens]. exact (ev_rule10_step (SUnion u us) rest 0 Hs I).
 Qed.
 
 Lemma rec_body_head s : step_ok s = true -> exists c r0, rec_body s = c :: r0 /\ c <> 32.
 Proof.
-  intros Hs. destruct s as [q k|k|ds|[|]|a b c0]; cbn [rec_body render_step]; try (eexists _, _; split; [reflexivity|discriminate]).
+  intros Hs. destruct s as [q k|k|ds|[|]|a b c0|u us]; cbn [rec_body render_step]; try (eexists _, _; split; [reflexivity|discriminate]).
   destruct k as [|c k]; [discriminate Hs|]. destruct (dot_first c k) as (x & r0 & Hx & _ & _). exists x, r0. split; [exact Hx|].
   unfold esc_dot_cps in Hx. cbn [flat_map] in Hx. destruct (dot_sym c) eqn:Es; cbn [app] in Hx; inversion Hx; subst; [discriminate|].
   intros ->. discriminate Es.
@@ -90,9 +92,9 @@ Section NoDollarExec.
     assert (Hbr : (match s with SDot _ | SWild true => False | _ => True end) ->
                   exists cps' b', execute (step_tokens 0 s ++ toks) input [] 0 (mk []) = execute toks input cps' b' (mk [INode (first_node s)])).
     { intros Hb. eexists _, _. rewrite (exec_step cfg parse_float regex_ok input 0 s [] toks [] 0 rest Hs).
-      - cbn [app]. unfold pre_node, first_node. destruct s as [q k|k|ds|[|]|a b c0]; try contradiction; reflexivity.
+      - cbn [app]. unfold pre_node, first_node. destruct s as [q k|k|ds|[|]|a b c0|u us]; try contradiction; reflexivity.
       - cbn [skipn]. rewrite Hin. rewrite rec_body_bracket by exact Hb. reflexivity. }
-    destruct s as [q k|k|ds|[|]|a b c0]; try (apply Hbr; exact I).
+    destruct s as [q k|k|ds|[|]|a b c0|u us]; try (apply Hbr; exact I).
     - destruct k as [|c k]; [discriminate Hs|]. cbn [step_ok] in Hs. cbn [first_tokens app Actions.execute]. cbn [rec_body] in Hin.
       assert (E1 : sub_list input 0 (List.length (esc_dot_cps (c :: k))) = esc_dot_cps (c :: k)).
       { pose proof (sub_at input 0 0 [] (esc_dot_cps (c :: k)) rest) as H. cbn [Nat.add] in H. apply H; [|reflexivity]. cbn [skipn app]. exact Hin. }
@@ -147,9 +149,9 @@ Section NoDollarExec.
                  Node (step_kind s) (set_vgroup (any_vg (pres0 s r)) (rec_inner_basic cfg s)) (link (pres cfg r))).
     { unfold update_vg. cbn [chain_vg]. rewrite link_vg. unfold pres0. cbn [any_vg existsb snd]. fold (any_vg (pres cfg r)).
       destruct (vgroup (rec_inner_basic cfg s) || any_vg (pres cfg r)) eqn:Ea.
-      - cbn [set_node_vg]. destruct s as [q k|k|ds|[|]|a b c0]; reflexivity.
+      - cbn [set_node_vg]. destruct s as [q k|k|ds|[|]|a b c0|u us]; reflexivity.
       - apply orb_false_iff in Ea. destruct Ea as [Ea _]. pose proof (set_vgroup_same (rec_inner_basic cfg s)) as Hsame. rewrite Ea in Hsame. rewrite Hsame.
-        destruct s as [q k|k|ds|[|]|a b c0]; reflexivity. }
+        destruct s as [q k|k|ds|[|]|a b c0|u us]; reflexivity. }
     rewrite Ev. rewrite (set_ctext_link _ _ (pres cfg r) Hk (pres_plain cfg r)). reflexivity.
   Qed.
 End NoDollarExec.
